@@ -126,6 +126,8 @@ HELPERS = [
 
 # --- a zoo covering every ast statement / expression class ------------------------------------------
 STMT_ZOO = [
+    # prohibited assignments whose value is itself prohibited (each part has to be marked)
+    "(q, r) = (lambda v: v, eval('x'))", "a = b = p0.name", "q, *r = [lambda: 1, x0.attr]", "x0.attr = lambda: (yield)", "a = b = (lambda: 1, {1: 2})",
     "pass", "return", "return None", "x: int", "x: int = 1", "x: foo = 1", "x: list = []", "x: list[list[int]] = [[1]]",
     "del x0", "x0 += 1", "x0 -= x0", "a = b = 1", "(a, b) = (1, 2)", "a, *b = [1, 2, 3]", "xs[0] = 1", "xs[0][1] = x0",
     "xs.y[0] = 1", "f()[0] = 1", "xs[0:1] = [1]", "xs['k'] = 1", "assert x0", "assert x0, 'msg'", "raise ValueError('x')", "raise",
